@@ -43,19 +43,23 @@ theorem tie_consts :
     ∧ Tw.Gen.Demo.CHUNKTYPE_SNAPSHOTDELTA = 0x60 ∧ Tw.Gen.Demo.CHUNKSIZE_ONEBYTEFOLLOWS = 30
     ∧ Tw.Gen.Demo.CHUNKSIZE_TWOBYTESFOLLOW = 31 := by decide
 
-/-- The literal comparisons of the chunk header codec that are not named constants: the over-long
-tests of the reader (`< 30`, `< u8::MAX`), the branch tests of the writer (`< ONEBYTEFOLLOWS`,
-`<= u8::MAX`), `TickMarker::new` (`tick > p`, inline iff `!keyframe && d <= max_tick_delta`), the
-versions and their inline-delta limits, the writer's versions. -/
+/-- The comparisons of the chunk header codec that are not named constants, in a normal form that a
+behaviour-preserving rewrite keeps (right-hand sides resolved to numbers, `x < n` as `x <= n-1`,
+`size.try_u8()` as `size <= 255`): the reader's over-long tests (`size <= 29` in the one-byte form,
+`size <= 254` in the two-byte form), the writer's branches (`size <= 29` inline, `size <= 255` one byte,
+else two bytes; what is or-ed into the kind flag: the size, 30, 31), `TickMarker::new` (assertion
+`tick > p`; inline iff `!keyframe` and `tick.checked_sub(p) <= max_tick_delta`), the versions and their
+inline-delta limits, the writer's versions. -/
 theorem tie_codec :
-    Tw.Gen.Demo.read_size_tests = [("<", "30"), ("<", "u8::MAX.u16()")]
-    ∧ Tw.Gen.Demo.write_size_tests = [("<", "CHUNKSIZE_ONEBYTEFOLLOWS.u16()"), ("<=", "u8::MAX.u16()")]
-    ∧ Tw.Gen.Demo.tick_marker_tests = ["tick > p", "!keyframe && d <= version.max_tick_delta().i32()"]
+    Tw.Gen.Demo.read_overlong_le = [29, 254]
+    ∧ Tw.Gen.Demo.write_size_le = [29, 255]
+    ∧ Tw.Gen.Demo.write_size_marks = [-1, 30, 31]
+    ∧ Tw.Gen.Demo.tick_marker_asserts = ["tick>p"]
+    ∧ Tw.Gen.Demo.tick_inline_test = (true, true, 0)
     ∧ Tw.Gen.Demo.versions = [("V3", 3), ("V4", 4), ("V5", 5), ("V6Ddnet", 6)]
     ∧ Tw.Gen.Demo.max_tick_delta = [("V3", "CHUNKTICKMASK_TICK_V3"), ("V4", "CHUNKTICKMASK_TICK_V3"),
         ("V5", "CHUNKTICKMASK_TICK_V5"), ("V6Ddnet", "CHUNKTICKMASK_TICK_V5")]
-    ∧ Tw.Gen.Demo.WRITER_VERSION = "V5" ∧ Tw.Gen.Demo.WRITER_VERSION_DDNET = "V6Ddnet"
-    ∧ Tw.Gen.Demo.lits_chunk_header_read = [0, 0, 0, 0, 0, 30] := by decide
+    ∧ Tw.Gen.Demo.WRITER_VERSION = "V5" ∧ Tw.Gen.Demo.WRITER_VERSION_DDNET = "V6Ddnet" := by decide
 
 /-- The file header layout declared through `binrw`: field order and types, big-endian, the
 version conditions of the optional blocks, the assertions, the magic strings and the digest
